@@ -113,7 +113,8 @@ STARTS = [[], ["app " + "61" * 31], ["set 0 98 32"], ["app " + "63" * 55], ["spr
 def gen(rng, tier):
     n = 2000 if tier == "quick" else 30000
     for i in range(n):
-        yield {"lines": gen_history(rng, rng.choice([3, 8, 20, 40]))}
+        # every tenth history first looks at the fresh buffer: printbuf_new gives the empty string, NUL-terminated
+        yield {"lines": (["peek"] if i % 10 == 0 else []) + gen_history(rng, rng.choice([3, 8, 20, 40]))}
     depth = 2 if tier == "quick" else 4
     for st in STARTS:
         for d in range(1, depth + 1):
